@@ -26,10 +26,13 @@ def block_findings():
             out.append('* `' + line.strip().replace('`', "'") + '`')
     return '\n'.join(out)
 
+def block_model():
+    return '```tla\n' + open(os.path.join(HERE, 'models', 'RecipeLifecycle.tla')).read().rstrip('\n') + '\n```'
+
 def main():
     p = os.path.join(HERE, 'DESIGN.md')
     s = open(p).read()
-    for name, fn in (('SEEDED', block_seeded), ('ASBUILT', block_asbuilt), ('FINDINGS', block_findings)):
+    for name, fn in (('SEEDED', block_seeded), ('ASBUILT', block_asbuilt), ('FINDINGS', block_findings), ('MODEL', block_model)):
         pat = re.compile(rf"(<!-- BEGIN:{name} -->\n).*?(<!-- END:{name} -->)", re.S)
         if not pat.search(s):
             print('marker missing', name); continue
